@@ -130,6 +130,28 @@ def aircontext_scope(ck, prog, ti, po, acv):
         ck.ob("AC", short, status in ("safe", "untainted"),
               f"{short.split('/')[0]}: this assertion cannot fail for a trace info and options taken from a parsed proof", loc=loc)
     ck.floor("assertions of the AirContext constructors examined", n, 8)
+    # the same mechanism one step later: evaluate_constraints asks the AIR for its boundary constraints, and BoundaryConstraints::new validates
+    # the AIR's assertions against the trace width / length of the context (i.e. the values CLAIMED BY THE PROOF) by panicking
+    from ..flow import flow
+    from ..ir import callee_name
+    from ..cfg import T
+    pa = [f for f in prog.fns.values() if f.crate == "winter_air" and f.kind != "closure" and
+          any((callee_name(t) or "").endswith(("Assertion::validate_trace_length", "Assertion::validate_trace_width")) for _, t in f.calls())]
+    bad = []
+    for f in pa:
+        ck.saw(f)
+        fi = prog.inl(f)
+        g = flow(fi)
+        for b, t in fi.calls():
+            cn = callee_name(t) or ""
+            if cn.endswith(("Result::unwrap_or_else", "Result::unwrap", "Result::expect")) and t["args"]:
+                w = g.walk(ops=t["args"][:1], at=(b, T), through=lambda tt: False)
+                if any((callee_name(fi.term(n[1])) or "").endswith(("validate_trace_length", "validate_trace_width")) for n in w if n[0] == "c"):
+                    bad.append(f.nname.split("::")[-1])
+    if pa:
+        ck.ob("AC", "boundary-assertions:validated-by-panic", not bad,
+              "the AIR's boundary assertions are not validated against the proof-claimed trace width/length by a panic "
+              "(validate_trace_length(..).unwrap_or_else(|e| panic!(..)) is reached from evaluate_constraints)", loc=pa[0].loc())
 
 
 def run(ck):
